@@ -1319,7 +1319,7 @@ func c01Conformance(r *findings.Run) bool {
 func C01() int {
 	r := findings.New("C01")
 	defer drive.Cleanup()
-	deadline := r.Deadline(8*time.Minute, 40*time.Minute)
+	deadline := r.Deadline(10*time.Minute, 40*time.Minute)
 	r.Set("exhaustive", true)
 	if !c01Conformance(r) {
 		return 2
